@@ -25,12 +25,25 @@ Added probe family (u1):
     elements have their most significant bit set (in aligned structures ending in a[EOF] the element count makes the structure end
     aligned, so known finding F30 does not apply and the case is checked strictly), and constructed directly from Python values at
     the edges of the element type.  Flags over signed types with sign-bit inputs are C12's known finding F22 (classified, not skipped).
+
+Added probe family (round 4, harness/v4_c01.py, `interrupted_builds`):
+  * structures whose building history includes a fault: a generated definition (all of the generator's types) is loaded through the
+    parser and its member types are used to build a second structure T incrementally on the same instance (declared with its first 0..2
+    members, interpreted or compiled, packed or aligned, either byte order, any pointer width), by a seeded history of steps: add_field
+    with a commit per field, `with T.start_update():` batches, `__fields__.extend` + commit, and *faulted* batches - start_update blocks in
+    which some add_field calls succeed and then the body raises (unknown type name via cs.resolve / attribute access / cs.typedefs,
+    add_field with a missing argument, a failing size expression, the caller's own exception) and the caller catches the exception; the
+    failed member is retried or dropped.  Right after every faulted batch, after some ordinary steps and at the end of the history the
+    round-trip predicate is evaluated on T as the structure of exactly the members added so far: values parsed from random bytes, the
+    same values rebuilt from keyword arguments, and the default value T() (left out only where a size expression decides an array's
+    length: the default instance is then not a value a parse can return).  At the end T is also used as member / array element of an
+    outer structure loaded from text.  The model's write / read are compared on the same values.
 """
 from __future__ import annotations
 
 import itertools
 
-from .. import defs, impl, refimpl, s1_hist, s1_mixed, u1_arrays
+from .. import defs, impl, refimpl, s1_hist, s1_mixed, u1_arrays, v4_c01
 from ..common import Result, mkrng
 from ..structprops import Engine, load, real_parse, small_unit_bits, rand_bytes, has_eof, has_union, union_dump_incomplete, union_anon_nested
 
@@ -367,7 +380,10 @@ def run(env) -> Result:
                 "dump, cs.endian switched, parse/dump, values carried across the switch; structures and standalone types) and mixed "
                 "alignment modes (sub-definitions loaded with their own align flag) and the product array form x element type (every entry of "
                 "the built-in type table, enums / flags over every integer type; member and stand-alone array type; values parsed from bytes "
-                "with top-bit-set elements and constructed at the edges of the element type). distinct = (definition, config, value "
+                "with top-bit-set elements and constructed at the edges of the element type). Plus structures built incrementally by "
+                "histories that include start_update() batches left through an exception after some add_field calls (declared with 0..2 "
+                "members, then add_field / start_update / extend+commit / faulted batches; values parsed, rebuilt from keywords and "
+                "default, after every faulted batch and at the end; also nested in an outer structure). distinct = (definition, config, value "
                 "bytes); non-trivial = >= 2 fields or a composite field and >= 2 bytes")
     eng = Engine(env, res, "C01")
     rnd = mkrng(env["seed"], "c01")
@@ -443,6 +459,9 @@ def run(env) -> Result:
     mixed_alignment(eng, res, mkrng(env["seed"], "c01-mixed-align"), tier)
     eng.flush()
     array_forms(eng, res, mkrng(env["seed"], "c01-array-forms"), tier)
+    eng.flush()
+    v4_c01.interrupted_builds(eng, res, mkrng(env["seed"], "c01-interrupted-builds"), tier,
+                              check_roundtrip=check_roundtrip, check_constructed=check_constructed)
     eng.flush()
     return res
 
